@@ -39,8 +39,11 @@ ASSUMPTIONS = [
     "the pydoe package is trusted: its design matrices (fullfact, gsd, pbdesign, bbdesign) are the specification of "
     "which level index each run uses; any exception with a frame inside site-packages/pydoe is a discard",
     "levels are np.linspace(lower, upper, levels) per scalar factor (docstring: 'evenly spaced levels between each "
-    "design variable lower and upper bound'); level value tolerance 4 ulp of max(|lower|,|upper|); bounds tolerance "
-    "2 ulp of max(|lower|,|upper|)",
+    "design variable lower and upper bound'); level value tolerance 4 ulp of max(|lower|,|upper|) + 4 ulp of the span; "
+    "bounds tolerance 2 ulp of max(|lower|,|upper|); a factor takes part in the level-index multiset only when its level "
+    "spacing exceeds 16x that tolerance (otherwise membership and multiplicity only)",
+    "GeneralizedSubset with n >= 2 complementary designs: the reference is the multiset of runs of all n pydoe designs "
+    "(their order is not specified); on the current tree this input crashes (known finding F23a)",
     "Plackett-Burman -1/+1 map to lower/upper, Box-Behnken -1/0/+1 map to lower/midpoint/upper (the usual coded-level convention)",
     "Latin hypercube strata are [k/n, (k+1)/n) of the normalised range; occupancy is judged with a tolerance "
     "delta = n*8*eps*max(|l|,|u|)/(u-l) + 1e-12 on the normalised coordinate; dimensions with lower == upper only "
